@@ -2,10 +2,10 @@
    Statements over the Layer-B machine.  The SQLAlchemy session is environment: traces are assumed
    well-formed (trace_wf / flush_wf, Proofs/CoreC01P.v): one event per entity per flush, inserts hit
    absent keys, updates/deletes present ones, an update whose versioned data differs from the stored
-   row is seen as modified, a tracked change makes the session count as modified, no row switch,
-   no manual record creation.  The correspondence check monitors these on every recorded trace;
-   the two places where the real environment violates them are recorded open findings
-   (F-C01-blind-set, F-C01-row-switch), and finding 10 (fixed) was the third. *)
+   row is seen as modified, every flushed object is up to date (no row switch), no manual record
+   creation.  The correspondence check monitors these on every recorded trace; the one place where
+   the real environment violates them is the recorded open finding F-C01-row-switch
+   (Refuted/C01_refuted.v). *)
 From Continuum Require Import Model.Base Model.VTable Model.Core
      Proofs.CoreP Proofs.CoreChainP Proofs.TrackP Proofs.RowsP Proofs.LiveP Proofs.CoreC01P.
 
